@@ -3,3 +3,6 @@ import Robotools.Props.C06
 #print axioms Robotools.C06.partition_zero
 #print axioms Robotools.C06.multi_disp_fits
 #print axioms Robotools.C06.multi_disp_unchanged
+#print axioms Robotools.C06.source_partition_spec
+#print axioms Robotools.GenFns.gen_partition_volume_ok
+#print axioms Robotools.GenFns.translated
